@@ -98,6 +98,34 @@ def gen_cases(ctx):
             add("batch_slice %s %d %d" % (s, lo, up), "batch_slice")
         for ids in ("0", "2", "0,1,2", "3", "-"):
             add("batch_pick %s %s" % (s, ids), "batch_pick")
+    # 2b. the MAX_DEPTH boundary: shapes of depth 5..8 x every axis (incl. axis == depth == 8)
+    deep = []
+    for k in range(5, 9):
+        deep.append(([2] * k, 1))
+        deep.append(([1] * (k - 1) + [2], 2))
+        deep.append(([2] + [1] * (k - 2) + [3], 1))
+    for (ds, b) in deep:
+        s = st(ds, b)
+        for ax in AXES:
+            add("get %s %d" % (s, ax), "deep")
+            add("lower_volume %s %d" % (s, ax), "deep")
+            add("reduce %s %d" % (s, ax), "deep")
+            for (lo, up) in ((0, 1), (0, 2), (1, 2)):
+                add("slice %s %d %d %d" % (s, ax, lo, up), "deep")
+            for n in (1, 2):
+                add("split %s %d %d" % (s, ax, n), "deep")
+            for sz in (1, 2):
+                add("broadcast %s %d %d" % (s, ax, sz), "deep")
+            add("pick %s 0 %d" % (s, ax), "deep")
+            for m in (1, 2):
+                add("resize_dim %s %d %d" % (s, ax, m), "deep")
+            add("concat %s;%s %d" % (s, s, ax), "deep")
+            add("loo %s %s %d" % (s, s, ax), "deep")
+            add("sce %s %s %d" % (s, s, ax), "deep")
+        add("flatten %s" % s, "deep")
+        add("transpose %s" % s, "deep")
+        for n in (len(ds), 8, 9):
+            add("permute_dims %s %s" % (s, ",".join(map(str, range(n)))), "deep")
     # 3. pairs (exhaustive over depth<=2 in quick, <=3 in thorough)
     ps = small_shapes(2 if quick else 3)
     for (d1, b1) in ps:
